@@ -10,21 +10,21 @@ CLAIMED = {
          "Trusts the harness's scripted actor and the oracle in harness/src/check.rs; SIM explores schedules reachable through yields/timers on one thread, MT whatever the OS produces."),
  "C02": ("sim+mt", "trace monitor: real-time precedence of sends (CallEnd before CallStart) must be preserved by handler entries; stop() as an in-band marker",
          "Exploration over seeded scenarios incl. capacity-1 mailboxes with parked senders and mixed tell/ask/timeout/erased variants.", "As C01."),
- "C03": ("sim+mt", "reply-integrity monitor (reply is a function of request id and handling sequence) + quiescence completeness (no open call at the end of a virtual-time-quiescent history) + real-thread death-race hang monitor; further real-thread rounds: actor ended by JoinHandle::abort() or by shutdown of its runtime, runtimes without a time driver, a tracing subscriber that re-enters rsactor from the dead-letter path, actors on a runtime that is no longer driven once their JoinHandle resolved, two unrelated timed blocking calls from two threads at once, requests forwarded parent -> child under restarts",
+ "C03": ("sim+mt", "reply-integrity monitor (reply is a function of request id and handling sequence) + quiescence completeness (no open call at the end of a virtual-time-quiescent history) + real-thread death-race hang monitor; further real-thread rounds: actor ended by JoinHandle::abort() or by shutdown of its runtime, runtimes without a time driver, a tracing subscriber that re-enters rsactor from the dead-letter path, actors on a runtime that is no longer driven once their JoinHandle resolved, two unrelated timed blocking calls from two threads at once, requests forwarded parent -> child under restarts, a caller runtime whose blocking pool is exactly full of blocking callers (asks queued at an actor that is then killed)",
          "Exploration; liveness restated as quiescence in virtual time (SIM) and bounded progress with heartbeat guard (MT).", "As C01; MT bound 10 s after the actor's JoinHandle resolved."),
  "C04": ("sim+mt", "per-actor hook-trace automaton (on_start once, no overlap, on_stop at most once and last, killed flag iff kill consumed); real-thread rounds dropping the last references from other threads while on_run spins",
          "Exploration over lifecycle/kill/fault profiles: every cause at every phase, hook outcomes ok/err/panic.", "As C01."),
  "C05": ("sim+laws+mt", "JoinHandle output compared with the same run's hook trace (variant, phase, killed, error tag, actor journal); exhaustive accessor laws over all ActorResult shapes",
          "Exploration + exhaustive enumeration of the finite ActorResult shape space for the accessor laws.", "As C01."),
- "C06": ("sim+mt", "trace monitor: kill() returns in the step it was called; at most one handler entry after kill returned; on_stop(killed=true) next, once and to completion whatever further kill() calls arrive; leftovers never handled; real-thread rounds with several OS threads inside kill() at the same instant on actors of their own",
+ "C06": ("sim+mt", "trace monitor: kill() returns in the step it was called; at most one handler entry after kill returned; on_stop(killed=true) next, once and to completion whatever further kill() calls arrive; leftovers never handled; real-thread rounds with several OS threads inside kill() at the same instant on actors of their own; a kill that finds the actor between hooks takes effect in that virtual instant (also when a parked sender holds a reserved slot it has not noticed)",
          "Exploration with pre-loaded mailboxes behind gated handlers, kill at every phase, self-kill from hooks.", "As C01."),
  "C07": ("sim+mt", "reference-model monitor at quiescent instants (harness counts its strong handles; weak ones never count) + probe asks + stop-is-final clause (nothing sent after stop() returned is handled); real-thread rounds dropping the last references from other threads while on_run spins",
          "Exploration over clone/drop/downgrade/upgrade/erased-conversion histories; 'ends' decided at virtual-time quiescence.", "As C01."),
  "C08": ("sim", "poll-level monitor of on_run (every poll, completion and cancellation is an event): no poll while an accepted tell waits or a kill is pending; Ok(false) final; Ok(true) re-run by next quiescence, and an enabled on_run restarted at EVERY quiescent instant at which the actor is idle (stop attempts that were given up before their marker was queued request nothing); Err -> on_stop(false); hooks that deliberately use up tokio's cooperative budget so that forced yields fall at arbitrary places",
          "Exploration over on_run scripts x arrival patterns x capacities.", "As C01."),
- "C09": ("sim+probe+mt", "occupancy prefix monitor from boundary events (accepted tells/stop markers minus taken) + quiescent 'no idle wait' check + fresh-process probes of the default-capacity configuration (racing, cross-thread and sequential: first value = built-in default, same value twice)",
+ "C09": ("sim+probe+mt", "occupancy prefix monitor from boundary events (accepted tells/stop markers minus taken) + quiescent 'no idle wait' check + fresh-process probes of the default-capacity configuration (racing, cross-thread and sequential: first value = built-in default, same value twice, capacities of 70 001)",
          "Exploration; occupancy is exact for tell-only traffic in SIM, a sound lower bound otherwise.", "As C01."),
- "C10": ("sim+mt", "virtual-time monitor: Timeout never before the deadline and at most one timer tick after it, never when the reply/failure instant precedes the deadline; Ok returns at the reply instant; other failures at their own instant; real-thread rounds: timed blocking asks from inside handlers, and a timed blocking call timing out at its own deadline while another thread's slow timed blocking call is pending",
+ "C10": ("sim+mt", "virtual-time monitor: Timeout never before the deadline and at most one timer tick after it, never when the reply/failure instant precedes the deadline; Ok returns at the reply instant; other failures at their own instant; real-thread rounds: timed blocking asks from inside handlers, and a timed blocking call timing out at its own deadline while another thread's slow timed blocking call is pending, after a streak of ~100 failed timed blocking calls, and from a blocking pool that is exactly full",
          "Exploration over timeout x completion-time x mailbox-state grid in virtual time (1 ms timer granularity tolerated; exact ties accept both outcomes).", "As C01; tokio's 1 ms timer wheel."),
  "C11": ("sim+mt", "identity/liveness/upgrade probes through every handle kind compared with the spawn's identity and the reference model; process-wide id uniqueness incl. parallel spawn storm; liveness and sends after the JoinHandle resolved by abort() / runtime shutdown; a queued ask whose caller is gone still counts as a queued message for upgrade(); ids and dead handles across supervised restarts",
          "Exploration.", "As C01."),
@@ -34,7 +34,7 @@ CLAIMED = {
          "Exploration.", "As C01; cancelled/unfinished calls make the affected key inconclusive, not violated."),
  "C14": ("sim+mt", "wait-for oracle over in-actor ask events: an ask that closes a cycle of unanswered in-flight asks must panic with 'Deadlock detected' naming the cycle; nothing pending at quiescence",
          "Exploration over cyclic topologies, cycle length 1-5, edges from every hook, ask/ask_with_timeout/ask_join/erased; simultaneous mutual asks on real threads.", "Requires the deadlock-detection feature build; concurrent asks from one hook are never generated (documented limitation)."),
- "C15": ("sim+mt", "same oracle, soundness side: no deadlock panic unless a chain of unanswered asks exists (grey edges: timed out/dead callee not yet observed); wait-for graph snapshot (hook H1) equals in-flight in-actor asks at quiescent instants and is empty at the end; real-thread lock-contention rounds (in-actor asks ending by timeout next to answered ones on up to 16 workers) with the same two checks",
+ "C15": ("sim+mt", "same oracle, soundness side: no deadlock panic unless a chain of unanswered asks exists (grey edges: timed out/dead callee not yet observed); drop witnesses on the scripted messages make the destruction of a queued request an event (a request that was thrown away contributes no edge); wait-for graph snapshot (hook H1) equals in-flight in-actor asks at quiescent instants and is empty at the end; real-thread lock-contention rounds (in-actor asks ending by timeout next to answered ones on up to 16 workers) with the same two checks",
          "Exploration.", "Uses the cfg(rsactor_verif) wait_for_snapshot hook."),
  "C16": ("sim-diff", "differential oracle: each scenario executed with direct references and again with every operation routed through randomly derived trait objects; canonical traces must be identical; all views of one actor agree on identity/is_alive",
          "Exploration (exact trace equality per scenario).", "As C01."),
